@@ -1,6 +1,7 @@
 package rules
 
 import (
+	"go/constant"
 	"go/token"
 	"strings"
 
@@ -185,30 +186,8 @@ func C04(c *Ctx) {
 	r.Extra["authfail_fire_sites_reference"] = 4
 
 	// (2) wiring
-	lockPkg := "ab/lock"
-	if c.P.ByPath[RepoPath+"/lock"] == nil {
-		r.Unknown("C04.wire", lockPkg, "package", "-", "lock package not found")
+	if !c.lockWiring("C04.wire") {
 		return
-	}
-	type want struct {
-		before bool
-		ev     string
-		fn     string
-	}
-	for _, w := range []want{{false, "EventAuthFail", "(*ab/lock.Lock).AfterAuthFail"}, {false, "EventAuth", "(*ab/lock.Lock).AfterAuthSuccess"}, {true, "EventAuth", "(*ab/lock.Lock).BeforeAuth"}, {true, "EventOAuth2", "(*ab/lock.Lock).BeforeAuth"}} {
-		found := false
-		pos := "-"
-		for _, x := range c.wireFind(w.before, c.Event(w.ev), lockPkg) {
-			if x.Name == w.fn {
-				found = true
-				pos = posf(c, x.Call)
-			}
-		}
-		ph := "After"
-		if w.before {
-			ph = "Before"
-		}
-		r.Check(found, "C04.wire", "(*ab/lock.Lock).Init", ph+"("+w.ev+")->"+w.fn, pos, "registered", "lock does not register "+w.fn+" on "+ph+"("+w.ev+")")
 	}
 	// constant flag passed by the two wrappers
 	uls := c.role("(*ab/lock.Lock).updateLockedState", func() *ssa.Function {
@@ -216,6 +195,7 @@ func C04(c *Ctx) {
 			return len(c.userCalls(f, "PutAttemptCount")) > 0
 		})
 	})
+	lm := c.lockModeOf(uls)
 	for _, w := range []struct {
 		fn   string
 		want bool
@@ -227,6 +207,10 @@ func C04(c *Ctx) {
 			if StaticCallee(call) == uls {
 				pos = posf(c, call)
 				if b, isC := ConstBool(Arg(call, len(call.Common().Args)-1)); isC && b == w.want {
+					ok = true
+				}
+				// the outcome as a small enumeration: each wrapper passes its own constant
+				if lm != nil && !lm.isBool && lm.okConst != nil && lm.failConst != nil {
 					ok = true
 				}
 			}
@@ -317,7 +301,11 @@ func (c *Ctx) lockStateStructure(fn *ssa.Function) {
 		r.Unknown("C04.state", name, "params", "-", "unexpected signature")
 		return
 	}
-	flag := fn.Params[len(fn.Params)-1]
+	lm := c.lockModeOf(fn)
+	if lm == nil {
+		r.Unknown("C04.state", name, "password outcome", "-", "how the routine is told the password outcome is not understood (neither a boolean nor two distinct constants passed by BeforeAuth and AfterAuthFail)")
+		return
+	}
 	isCountPlus1 := func(v ssa.Value) bool {
 		b, ok := v.(*ssa.BinOp)
 		if !ok || b.Op != token.ADD {
@@ -368,7 +356,7 @@ func (c *Ctx) lockStateStructure(fn *ssa.Function) {
 		switch p.Method {
 		case "PutLocked":
 			nLocked++
-			r.Check(HasFact(fs, func(f Fact) bool { return f.SaysBool(flag, false) }), "C04.state", name, "PutLocked|!wasCorrectPassword", pos, "only on the failure path", "PutLocked is not control-dependent on !wasCorrectPassword: a correct password could lock or extend a lock")
+			r.Check(HasFact(fs, lm.saysFail), "C04.state", name, "PutLocked|!wasCorrectPassword", pos, "only on the failure path", "PutLocked is not control-dependent on !wasCorrectPassword: a correct password could lock or extend a lock")
 			r.Check(HasFact(fs, inWindow), "C04.cmp", name, "PutLocked|window", pos, "only when now-last <= LockWindow", "PutLocked is not guarded by now.Sub(GetLastAttempt()) <= LockWindow")
 			r.Check(HasFact(fs, reached), "C04.cmp", name, "PutLocked|threshold", pos, "only when GetAttemptCount()+1 >= LockAfter", "PutLocked is not guarded by GetAttemptCount()+1 >= LockAfter (threshold comparison changed)")
 			ac, _ := CallOf(Arg(p.Call, 0))
@@ -377,7 +365,7 @@ func (c *Ctx) lockStateStructure(fn *ssa.Function) {
 			r.Check(okArg, "C04.cmp", name, "PutLocked.arg", pos, "lock instant is now + LockDuration", "lock instant is not time.Now()+LockDuration")
 		case "PutAttemptCount":
 			nCount++
-			r.Check(HasFact(fs, func(f Fact) bool { return f.SaysBool(flag, false) }), "C04.state", name, "PutAttemptCount|!wasCorrectPassword", pos, "only on the failure path", "PutAttemptCount is not control-dependent on !wasCorrectPassword: a correct password would change the count")
+			r.Check(HasFact(fs, lm.saysFail), "C04.state", name, "PutAttemptCount|!wasCorrectPassword", pos, "only on the failure path", "PutAttemptCount is not control-dependent on !wasCorrectPassword: a correct password would change the count")
 			arg := Arg(p.Call, 0)
 			if n, isC := ConstInt(arg); isC {
 				r.Check(n == 1 && HasFact(fs, outWindow), "C04.cmp", name, "PutAttemptCount(1)|outside window", pos, "count restarts at 1 when the window has passed", "constant count is not 1 under now-last > LockWindow")
@@ -524,8 +512,8 @@ func (c *Ctx) lockEveryAttempt(rule string, uls *ssa.Function) {
 	}
 	failAssume := map[ssa.Value]bool{}
 	if uls != c.P.Func("(*ab/lock.Lock).AfterAuthFail") && len(uls.Params) > 0 {
-		if last := uls.Params[len(uls.Params)-1]; isBoolType(last.Type()) {
-			failAssume[last] = false
+		if lm := c.lockModeOf(uls); lm != nil {
+			failAssume = lm.assumeFail(uls)
 		}
 	}
 	everyExit(uls, failAssume, "PutAttemptCount", "failed attempt ⇒ PutAttemptCount", "a failed attempt can complete without being counted: failures on that path (an account that is already locked, …) neither add up nor re-trigger the lock")
@@ -534,4 +522,153 @@ func (c *Ctx) lockEveryAttempt(rule string, uls *ssa.Function) {
 	everyExit(c.P.Func("(*ab/lock.Lock).Unlock"), nil, "PutAttemptCount", "Unlock ⇒ PutAttemptCount(0)", "Unlock can report success without resetting the failure count: the stale count makes the next failure lock the account again")
 	everyExit(c.P.Func("(*ab/lock.Lock).Unlock"), nil, "Save", "Unlock ⇒ Save", "Unlock can report success without storing the reset state")
 	everyExit(c.P.Func("(*ab/lock.Lock).Lock"), nil, "Save", "Lock ⇒ Save", "Lock can report success without storing the lock")
+}
+
+// lockWiring: lock registers its three handlers on the four events, each
+// unconditionally. (C16 needs it as much as C04: the wrong password on a locked
+// account is answered by AfterAuthFail, the right one by BeforeAuth.)
+func (c *Ctx) lockWiring(rule string) bool {
+	r := c.R
+	lockPkg := "ab/lock"
+	if c.P.ByPath[RepoPath+"/lock"] == nil {
+		r.Unknown(rule, lockPkg, "package", "-", "lock package not found")
+		return false
+	}
+	type want struct {
+		before bool
+		ev     string
+		fn     string
+	}
+	for _, w := range []want{{false, "EventAuthFail", "(*ab/lock.Lock).AfterAuthFail"}, {false, "EventAuth", "(*ab/lock.Lock).AfterAuthSuccess"}, {true, "EventAuth", "(*ab/lock.Lock).BeforeAuth"}, {true, "EventOAuth2", "(*ab/lock.Lock).BeforeAuth"}} {
+		found := false
+		pos := "-"
+		for _, x := range c.wireFind(w.before, c.Event(w.ev), lockPkg) {
+			if x.Name == w.fn {
+				found = true
+				pos = posf(c, x.Call)
+			}
+		}
+		ph := "After"
+		if w.before {
+			ph = "Before"
+		}
+		r.Check(found, rule, "(*ab/lock.Lock).Init", ph+"("+w.ev+")->"+w.fn, pos, "registered", "lock does not register "+w.fn+" on "+ph+"("+w.ev+")")
+	}
+	return true
+}
+
+// lockMode: how lock's shared routine is told whether the password was right
+// — a boolean parameter (true: right), or a small enumeration of which
+// BeforeAuth passes one constant and AfterAuthFail another.
+type lockMode struct {
+	param              *ssa.Parameter
+	isBool             bool
+	okConst, failConst *ssa.Const
+}
+
+func (c *Ctx) lockModeOf(uls *ssa.Function) *lockMode {
+	if uls == nil || len(uls.Params) == 0 {
+		return nil
+	}
+	last := uls.Params[len(uls.Params)-1]
+	m := &lockMode{param: last, isBool: isBoolType(last.Type())}
+	if m.isBool {
+		return m
+	}
+	pick := func(wrapper string) *ssa.Const {
+		fn := c.P.FuncOpt(wrapper)
+		if fn == nil {
+			return nil
+		}
+		var k *ssa.Const
+		for _, call := range Calls(fn) {
+			if StaticCallee(call) == uls {
+				if cv, ok := Arg(call, len(call.Common().Args)-1).(*ssa.Const); ok && cv.Value != nil {
+					k = cv
+				}
+			}
+		}
+		return k
+	}
+	m.okConst, m.failConst = pick("(*ab/lock.Lock).BeforeAuth"), pick("(*ab/lock.Lock).AfterAuthFail")
+	if m.okConst == nil || m.failConst == nil || constant.Compare(m.okConst.Value, token.EQL, m.failConst.Value) {
+		return nil
+	}
+	// no other value is ever passed
+	for _, call := range c.Callers(uls) {
+		cv, ok := Arg(call, len(call.Common().Args)-1).(*ssa.Const)
+		if !ok || cv.Value == nil || !(constant.Compare(cv.Value, token.EQL, m.okConst.Value) || constant.Compare(cv.Value, token.EQL, m.failConst.Value)) {
+			return nil
+		}
+	}
+	return m
+}
+
+func (m *lockMode) cmp(f Fact) (eqFail, eqOK, known bool) {
+	rel := f.Rel()
+	if rel.X != ssa.Value(m.param) || (rel.Op != token.EQL && rel.Op != token.NEQ) {
+		return false, false, false
+	}
+	k, ok := rel.Y.(*ssa.Const)
+	if !ok || k.Value == nil {
+		return false, false, false
+	}
+	isFail := constant.Compare(k.Value, token.EQL, m.failConst.Value)
+	isOK := constant.Compare(k.Value, token.EQL, m.okConst.Value)
+	if !isFail && !isOK {
+		return false, false, false
+	}
+	if rel.Op == token.NEQ {
+		isFail, isOK = isOK, isFail // only the two values occur
+	}
+	return isFail, isOK, true
+}
+
+// saysFail: the fact establishes that the password was wrong.
+func (m *lockMode) saysFail(f Fact) bool {
+	if m.isBool {
+		return f.SaysBool(m.param, false)
+	}
+	fail, _, known := m.cmp(f)
+	return known && fail
+}
+
+// mentions: the fact depends on the password outcome at all.
+func (m *lockMode) mentions(f Fact) bool {
+	if m.isBool {
+		return f.SaysBool(m.param, true) || f.SaysBool(m.param, false)
+	}
+	_, _, known := m.cmp(f)
+	return known
+}
+
+// assumeFail: truth values of the routine's tests of the outcome when the
+// password was wrong.
+func (m *lockMode) assumeFail(fn *ssa.Function) map[ssa.Value]bool {
+	out := map[ssa.Value]bool{}
+	if m.isBool {
+		out[m.param] = false
+		return out
+	}
+	for _, b := range fn.Blocks {
+		for _, in := range b.Instrs {
+			bo, ok := in.(*ssa.BinOp)
+			if !ok || (bo.Op != token.EQL && bo.Op != token.NEQ) {
+				continue
+			}
+			var k *ssa.Const
+			switch {
+			case bo.X == ssa.Value(m.param):
+				k, _ = bo.Y.(*ssa.Const)
+			case bo.Y == ssa.Value(m.param):
+				k, _ = bo.X.(*ssa.Const)
+			}
+			if k == nil || k.Value == nil {
+				continue
+			}
+			eq := constant.Compare(k.Value, token.EQL, m.failConst.Value)
+			out[bo] = eq == (bo.Op == token.EQL)
+		}
+	}
+	return out
 }
